@@ -8,6 +8,7 @@ import "errors"
 // a request awaiting a response and the read routine's acknowledgement share
 // one connection whose Write takes time (scheduling point inside Write).
 func verifH_C08_concurrent() {
+	verifUnwind(400)
 	verifPreempt(verifParam("preempt", 1))
 	c := verifNewClient(&verifStore{}, &Config{PauseTimeout: verifTimeoutChoice()})
 	conn := &verifConn{wfaults: verifParam("wfaults", 1), slow: true, coarse: true}
@@ -15,13 +16,21 @@ func verifH_C08_concurrent() {
 	// the read routine notices a closed connection at once: Online gets blocked (the rest of
 	// toOffline needs the write token and is played after the writers came to rest)
 	conn.onClose = func() { blockSignalChan(c.onlineSig) }
-	pub := verifRefPublish(false, 0, false, []byte{'a'}, 0, []byte{'x', 'y'})
+	payload := []byte{'x', 'y'}
+	if verifChoose("bigpayload", verifParam("big", 1)+1) == 1 {
+		// larger than the pooled packet buffer
+		payload = make([]byte, 130)
+		for i := range payload {
+			payload[i] = 'x'
+		}
+	}
+	pub := verifRefPublish(false, 0, false, []byte{'a'}, 0, payload)
 	ping := verifRefPublish(false, 0, true, []byte{'b'}, 0, []byte{'z'}) // second writer: a retained publish
 	ack := []byte{0x40, 2, 0, 7}
 	var e1, e2, e3 error
 	done := 0
 	r1, r2, r3 := false, false, false
-	go func() { e1 = c.Publish(nil, []byte{'x', 'y'}, "a"); done++; r1 = true }()
+	go func() { e1 = c.Publish(nil, payload, "a"); done++; r1 = true }()
 	go func() { e2 = c.PublishRetained(nil, []byte{'z'}, "b"); done++; r2 = true }()
 	go func() { e3 = c.writeAck(ack); done++; r3 = true }()
 	verifQuiesce()
